@@ -20,7 +20,7 @@ func init() {
 		"per request: responses counted and matched (stamp: response type, seq, path, method, serialize type; result computed from its own arguments), handler invocations counted, " +
 		"connection state observed; every request is replayed on the Lean server model; non-trivial = request other than a plain successful call; distinct = distinct input line"
 	register("c04", "C04 focus (response count, stamping, dispatch styles, pooled argument objects): "+rule, func(o *Out, r *rand.Rand) { runSrv(o, r, "c04") })
-	register("c07", "C07 focus (failure kinds, error texts, server keeps serving; plus a real client.Client issuing sequential and pipelined failing calls whose errors are kept and judged after later traffic on the same connection): "+rule, func(o *Out, r *rand.Rand) { runSrv(o, r, "c07") })
+	register("c07", "C07 focus (failure kinds, error texts, server keeps serving; plus a real client.Client issuing sequential and pipelined failing calls whose errors are kept and judged after later traffic on the same connection; plus a router-handler panic whose reporting (HandleServiceError) is held while other connections are served): "+rule, func(o *Out, r *rand.Rand) { runSrv(o, r, "c07") })
 	register("c15", "C15 focus (rejections at every stage, flags, tokens; native ingress + gateway + JSON-RPC ingress): "+rule, func(o *Out, r *rand.Rand) { runSrv(o, r, "c15"); runC15Ingress(o, r) })
 }
 
@@ -439,6 +439,14 @@ func srvPooled(o *Out, rig *srvRig, r *rand.Rand, id *int, pfx string) {
 	per := 40
 	if thorough() {
 		conns, per = 8, 300
+		if rig.opts.async && rig.opts.pool {
+			// AsyncWrite submits the response write to the SAME worker pool (8 workers, queue of 1000)
+			// that runs the handlers: with more than a queue-full of pipelined requests outstanding every
+			// worker blocks submitting its write behind a queue full of requests and nothing moves any
+			// more.  That is a liveness limit of the experimental AsyncWrite+WithPool combination, outside
+			// what C04/C20 state; the scenario stays below it.
+			per = 100
+		}
 	}
 	atomic.StoreInt32(&rig.pooledBad, 0)
 	atomic.StoreInt32(&rig.pooledReplyBad, 0)
@@ -521,7 +529,7 @@ func srvPooled(o *Out, rig *srvRig, r *rand.Rand, id *int, pfx string) {
 	sort.Strings(bads)
 	o.Eval(fmt.Sprintf("pooled %dx%d", conns, per), true)
 	if len(bads) > 0 {
-		o.Violate(pfx+".pooled.cross-wired", "concurrent requests with pooled reply objects: "+bads[0], map[string]any{"connections": conns, "per_connection": per})
+		o.Violate(pfx+".pooled.cross-wired", "concurrent requests with pooled reply objects: "+bads[0], map[string]any{"connections": conns, "per_connection": per, "worker_pool": rig.opts.pool, "async_write": rig.opts.async, "all": bads})
 	}
 	if n := atomic.LoadInt32(&rig.pooledBad); n > 0 {
 		o.Violate(pfx+".pooled.args-shared", fmt.Sprintf("a pooled argument object changed under a running handler %d times (shared between two requests in flight)", n), map[string]any{"connections": conns})
